@@ -322,6 +322,12 @@ class Fn:
             if r2[0] == "call":
                 # the inner value's own success payload: Some.0 / Ok.0 are implicit in the wrapper's success payload
                 return self.payload(r2[1], r2[2], tuple(p2) + tuple(p), depth + 1)
+            if r2[0] == "local" and nm == "branch" and not p2 and not p:
+                # LE-UNWRAP: `x?` on a Result BUILT IN THIS BODY (the body of a new helper spliced in, see lib/inline.py): the Continue payload is
+                # the operand of one of the `Ok(..)` aggregates that define it; error definitions never reach the Continue edge
+                alts = self.ok_alternatives(r2[1])
+                if alts:
+                    return ("alts", alts)
             return ("unknown",)
         if nm == "right_unwrap_or" and len(term["args"]) == 2 and list(proj) == ["1"]:
             r2, p2 = self.g.resolve_operand(term["args"][0])
@@ -330,6 +336,28 @@ class Fn:
                 return ("either", some, ("op", term["args"][1], blk))
             return ("unknown",)
         return ("call", term, blk)
+
+    def ok_alternatives(self, l, depth=0):
+        """[(operand, block)] of the `Result::Ok(operand)` aggregates that may define local l (through whole-local moves); definitions that are
+        `Err(..)` aggregates or results of from_residual / err helpers are skipped; anything else -> None"""
+        if depth > 6:
+            return None
+        out = []
+        for (db, si, rv) in self.g.defs.get(l, []):
+            if rv["k"] == "Aggregate" and rv.get("agg") == "Adt" and rv["adt"].endswith("result::Result"):
+                if rv["variant"] == "Ok" and len(rv["ops"]) == 1:
+                    out.append((rv["ops"][0], db))
+                continue
+            if rv["k"] == "Use" and _is_place_op(rv["op"]) and not rv["op"]["place"]["proj"]:
+                sub = self.ok_alternatives(rv["op"]["place"]["local"], depth + 1)
+                if sub is None:
+                    return None
+                out += sub
+                continue
+            if rv["k"] == "CallResult" and mir.callee_name(rv["term"]) in ("from_residual", "err", "parse_error"):
+                continue
+            return None
+        return out or None
 
     # ------------------------------------------------------------------ the prover
     def le(self, op, at, hyp=frozenset(), depth=0):
@@ -616,6 +644,8 @@ def rule_B_LEN(ctx, floor_sites=20, floor_posts=14):
     ctx.floor("functions under border contract", len(C), 12)
     n_sites = n_posts = n_pre = 0
     proved = []
+    site_ok, post_ok = {}, {}
+    ctx._b_len = (site_ok, post_ok)
     for p, b in sorted(f.mir.items()):
         if MOD not in p:
             continue
@@ -650,6 +680,7 @@ def rule_B_LEN(ctx, floor_sites=20, floor_posts=14):
                 ok = all(o for o, w in oks)
                 ctx.ob("B-LEN", key, ok, "; ".join("%s: %s" % (fn.show(x), w) for x, (o, w) in zip(need, oks) if not o), loc(t["line"]))
                 proved.append({"site": key, "rule": [w for o, w in oks]})
+                site_ok[(p, bi)] = (ok, kind)
             else:
                 # slicing a sub-slice s = E[..k] / E[o..]: bounds relative to s.  Supported: s = E[..k] sliced from r with r a payload on s (r <= len(s))
                 ok, why = False, "slice of a sub-slice"
@@ -672,6 +703,7 @@ def rule_B_LEN(ctx, floor_sites=20, floor_posts=14):
                     ok, w = fn.le(op, bi)
                     shown = fn.show(op)
                 ctx.ob("B-LEN", "%s | post: returned %s <= len(env)" % (name, label), ok, "%s: %s" % (shown, w), loc(b["span"]["line"]))
+                post_ok[p] = post_ok.get(p, True) and ok
                 proved.append({"post": "%s %s" % (name, label), "rule": w})
         # ---- pre at call sites
         if fn.env is not None:
@@ -762,3 +794,31 @@ def rule_L_ONCE(ctx):
         ctx.ob("L-ONCE", "%s: each member of the recursion cycle is tried at most once per region on a path" % b["name"], not bad, "; ".join(bad),
                "%s:%s" % (b["span"]["file"], b["span"]["line"]))
     ctx.floor("recursive call sites examined by L-ONCE", n_sites, 6)
+
+
+class _Collect:
+    """obligation sink used when another rule only needs B-LEN's verdicts"""
+    def __init__(self, facts):
+        self.facts, self.extra, self.failed = facts, {}, []
+
+    def rule(self, *a, **k): pass
+    def fn(self, *a, **k): pass
+    def sample(self, *a, **k): pass
+    def floor(self, *a, **k): pass
+
+    def ob(self, rule, key, ok, why="", site=None):
+        if not ok:
+            self.failed.append(key)
+
+
+def proofs(facts):
+    """(site_ok, post_ok): {(body path, block): (proved?, range kind)} for the slice sites of the lexical parser and {body path: all returned
+    borders proved <= len(env)}.  Used by P-GUARD / R-BORDER: a site B-LEN PROVES on the current code needs no reviewed reference."""
+    if not hasattr(facts, "_b_len_proofs"):
+        c = _Collect(facts)
+        try:
+            rule_B_LEN(c)
+            facts._b_len_proofs = getattr(c, "_b_len", ({}, {}))
+        except Exception:
+            facts._b_len_proofs = ({}, {})
+    return facts._b_len_proofs
